@@ -456,26 +456,44 @@ def design_check_start(o, tier):
     thorough = tier == "thorough"
     mcs = ["ExchangerMC_quick.cfg", "ExchangerMC_byz_quick.cfg", "ExchangerMC_hold_quick.cfg", "ExchangerMC_expire_quick.cfg",
            "ExchangerMC_live_quick.cfg"]
+    sims = []
     if thorough:
-        mcs += ["ExchangerMC_n4.cfg", "ExchangerMC_all3.cfg", "ExchangerMC_conc.cfg", "ExchangerMC_byz.cfg", "ExchangerMC_byz2.cfg",
+        mcs += ["ExchangerMC_n4.cfg", "ExchangerMC_all3.cfg", "ExchangerMC_byz.cfg", "ExchangerMC_byz2.cfg",
                 "ExchangerMC_focus2.cfg", "ExchangerMC_live.cfg"]
-    jobs = [(cfg, None, None) for cfg in mcs] + list(CONTROLS)
+        sims = ["ExchangerMC_n4dr_sim.cfg", "ExchangerMC_conc_sim.cfg"]     # too large to enumerate: time-boxed simulation
+    jobs = [(cfg, None, None) for cfg in mcs] + [(cfg, "sim", None) for cfg in sims] + list(CONTROLS)
     dirs = [vlib.scratch(o.pid, FAMILY) for _ in jobs]          # vlib.scratch is not thread-safe: all of them now
     big = WORKERS or max(4, vlib.NCPU // 2)
+    SIM_S = 150
 
     def one(k):
         cfg, inv, _ = jobs[k]
-        return vlib.tlc(o.pid, FAMILY, "ExchangerMC", cfg, workers=(big if inv is None else 2), timeout=1700, sdir=dirs[k])
-    ex = ThreadPoolExecutor(max_workers=4 if thorough else len(jobs))
+        if inv == "sim":
+            return vlib.tlc(o.pid, FAMILY, "ExchangerMC", cfg, simulate="num=1000000000", depth=170, seed=o.seed, workers=4,
+                            timeout=SIM_S + 120, stop_after=SIM_S, sdir=dirs[k], heap="3g")
+        return vlib.tlc(o.pid, FAMILY, "ExchangerMC", cfg, workers=(big if inv is None else 2), timeout=1700, sdir=dirs[k], heap="3g")
+    ex = ThreadPoolExecutor(max_workers=3 if thorough else len(jobs))
     futs = [ex.submit(one, k) for k in range(len(jobs))]
 
     def finish():
+        import re
         results = [f.result() for f in futs]
         ex.shutdown()
         for (cfg, inv, what), r in zip(jobs, results):
             if inv is None:
                 vlib.require_mc_ok(r, cfg)
                 o.add_mc("Exchanger/" + cfg[:-4], r)
+            elif inv == "sim":
+                if r.violation or r.error:
+                    raise vlib.Infra("simulation of %s found a design-spec problem: %s\n%s" % (cfg, r.summary(), r.out[-3000:]))
+                st = tr = 0
+                for m in re.finditer(r"Progress: (\d+) states checked, (\d+) traces generated", r.out):
+                    st, tr = int(m.group(1)), int(m.group(2))
+                m = re.search(r"The number of states generated: (\d+)", r.out)
+                st = max(st, int(m.group(1))) if m else st
+                if st == 0:
+                    raise vlib.Infra("simulation of %s made no progress: %s" % (cfg, r.out[-1500:]))
+                o.add_sim("Exchanger/" + cfg[:-4], st, tr, r.wall)
             elif r.violation != inv:
                 raise vlib.Infra("Exchanger design-spec control failed: '%s' not caught by %s: %s" % (what, inv, r.summary()))
             else:
